@@ -386,7 +386,7 @@ class GenRules(object):
         b2 = exp.body("switch_and_return")
         if self.ob("P7", "switch_and_return found", b2 is not None, inst="sar"):
             models = StdModels(program=self.prog, home=exp.crate,
-                               inline_ok=lambda c, b: c == exp.struct + "::switch")
+                               inline_ok=lambda c, b: c in (exp.struct + "::switch", exp.struct + "::return_"))
             eng = Engine(b2, models=models)
             res = eng.run(0, Path())
             for st, end in res:
@@ -416,8 +416,11 @@ class GenRules(object):
                             ok, inst="ctx-arg:%d" % e[1], where=self.where(s),
                             detail=repr(e[2])[:200])
         for idx, b in sorted(self.exp.ctx_fns().items()):
-            ok = (b["sig_in"] == ["I"] and b["sig_out"] == "bool")
-            self.ob("P8", "context function %d takes the iterator by value and returns bool" % idx,
+            from .lts import ctx_fn_shape
+            ok = (b["sig_out"] == "bool" and (b["sig_in"] == ["I"] or
+                                              (b["sig_in"] == ["&I"] and ctx_fn_shape(b)[0] == "ref")))
+            self.ob("P8", "context function %d works on a private copy of the iterator (taken by value, or "
+                    "cloned from the reference it is given before anything else) and returns bool" % idx,
                     ok, inst="ctx-sig:%d" % idx, where=b["span"],
                     detail={"in": b["sig_in"], "out": b["sig_out"]})
         self.ctx.count("right_context_tests", n)
